@@ -31,7 +31,7 @@ def b58chk(rope):
     v = rope.be()
     t = b58chk_fn(len(rope))(v)
     _ROPE_OF[t.get_id()] = (t, rope)
-    return SStr([OStr(t, f"b58chk{len(rope)}")])
+    return SStr([OStr(t, f"b58chk{len(rope)}", inj=("b58chk", rope))])
 
 
 def s_encode_base58_checksum(ctx, args, kw):
@@ -94,7 +94,8 @@ def segwit_addr(testnet, witver, prog):
         from spec import bech32 as SB
         return SB.encode("tb" if tn else "bc", witver, prog.native())
     code = L.ite(tn, 1, 0)
-    return SStr([OStr(segwit_fn(len(prog))(L.toint(code), L.toint(witver), L.toint(prog.be())), f"segwit{len(prog)}")])
+    return SStr([OStr(segwit_fn(len(prog))(L.toint(code), L.toint(witver), L.toint(prog.be())), f"segwit{len(prog)}",
+                      inj=("segwit", code, witver, prog))])
 
 
 def s_bech32_encode(ctx, args, kw):
@@ -108,7 +109,8 @@ def s_bech32_encode(ctx, args, kw):
     legal = segwit_legal(witver, len(prog))
     if not ctx.branch(legal):
         return None
-    return SStr([OStr(segwit_fn(len(prog))(L.toint(hrp_code(hrp)), L.toint(witver), L.toint(prog.be())), f"segwit{len(prog)}")])
+    return SStr([OStr(segwit_fn(len(prog))(L.toint(hrp_code(hrp)), L.toint(witver), L.toint(prog.be())), f"segwit{len(prog)}",
+                      inj=("segwit", hrp_code(hrp), witver, prog))])
 
 
 def _new_child(ctx, selfref, o, key, cc, index):
